@@ -21,14 +21,19 @@
     parsing the output of toString yields the same names,
     attribute order and values, text and nesting"           -> xml_roundtrip   (full, layer 3)
         layer 1: escape_unescape_inverse, escape_output_is_safe (against the regenerated tables)
+        "entity and numeric character references": xml_predefined_entities, xml_numeric_reference
         layer 2: xml_attribute_value_roundtrip, xml_text_node_roundtrip
    "copies of element values are independent of their
-    source"                                                 -> see the handle theorems at the end
+    source"                                                 -> xml_copies_independent, from
+        xml_handle_counts_exact (every reference count = number of Variant objects pointing to the
+        block, for every history; so the in-place write path, taken when ref == 1, is seen by the
+        written handle alone) and xml_handles_refine_values (the heap model with copy-on-write
+        refines the value store of the spec)
 
    Only statements closed by `exact`, each followed by Print Assumptions, plus non-vacuity
    Examples. *)
 From Coq Require Import ZArith List Bool.
-From Xml Require Import Gen_Xml XmlSpec XmlModel XmlProofsCodec XmlProofsScan XmlProofsTotal XmlProofsRound XmlProofsComment.
+From Xml Require Import Gen_Xml XmlSpec XmlModel XmlProofsCodec XmlProofsScan XmlProofsTotal XmlProofsRound XmlProofsComment XmlProofsHandles.
 Import ListNotations.
 Local Open Scope Z_scope.
 
@@ -108,6 +113,19 @@ Theorem escape_output_is_safe : forall v, wf_value v = true -> forallb safe_out 
 Proof. exact escape_safe. Qed.
 Print Assumptions escape_output_is_safe.
 
+(* references decode as XML says: the five predefined entities, decimal character references *)
+Theorem xml_predefined_entities : forall nm c, In (nm, c) std_entities -> unescape (38 :: nm ++ [59]) = [c].
+Proof. exact predefined_entities. Qed.
+Print Assumptions xml_predefined_entities.
+
+Theorem xml_numeric_reference : forall d ds rest, forallb is_digit (d :: ds) = true -> digits_val 0 (d :: ds) < 4294967296 ->
+  unescape (38 :: 35 :: (d :: ds) ++ 59 :: rest) = utf8 (digits_val 0 (d :: ds)) ++ unescape rest.
+Proof. exact numeric_reference. Qed.
+Print Assumptions xml_numeric_reference.
+
+Example ex_references : unescape [38;103;116;59;38;35;54;53;59;38;35;50;51;51;59] = [62;65;195;169].
+Proof. vm_compute. reflexivity. Qed.
+
 (* layer 2 *)
 Theorem xml_attribute_value_roundtrip : forall p v z, rest p = 34 :: escape v ++ 34 :: z -> wf_value v = true ->
   exists tk q, readToken p = Ok (tk, q) /\ tty tk = TStr /\ tval tk = v /\ rest q = z.
@@ -134,3 +152,36 @@ Example ex_roundtrip :
   wf_tree e = true /\
   roundtrip e = Ok (N 2 1 [97] [([107], [34;38;10;13;60;39]); ([108], [])] [T [32;120;38]; N 2 52 [98] [] []; T [10;121]]).
 Proof. split; vm_compute; reflexivity. Qed.
+
+(* ---- copies of element values are independent --------------------------------------------- *)
+
+(* for every history of handle operations: every block's reference count is the number of Variant
+   objects pointing to it (slots + content lists of live blocks), so nothing points to a freed
+   block (count 0); and a block's children are older than the block *)
+Theorem xml_handle_counts_exact : forall ops b,
+  rcof (hp (vrun ops)) b = (cnt b (srefs (slots (vrun ops))) + cnt b (lrefs (hp (vrun ops))))%nat.
+Proof. exact run_counts_exact. Qed.
+Print Assumptions xml_handle_counts_exact.
+
+Theorem xml_handle_invariant : forall ops, Inv (vrun ops).
+Proof. exact run_inv. Qed.
+Print Assumptions xml_handle_invariant.
+
+Theorem xml_handles_refine_values : forall ops, vabs (vrun ops) = fold_left vstep ops [].
+Proof. exact run_refines. Qed.
+Print Assumptions xml_handles_refine_values.
+
+Theorem xml_copies_independent : forall ops o j, j <> target o ->
+  sget (vabs (mstep (vrun ops) o)) j = sget (vabs (vrun ops)) j.
+Proof. exact copies_independent. Qed.
+Print Assumptions xml_copies_independent.
+
+(* a copy shares the block (count 2); nested sharing, clone on mutable access through the copy *)
+Example ex_handles_shared : map rc (hp (vrun [VElem 0 [97]; VCopy 1 0])) = [2%nat]
+  /\ vabs (vrun [VElem 0 [97]; VCopy 1 0]) = [Some (N 0 0 [97] [] []); Some (N 0 0 [97] [] [])].
+Proof. split; vm_compute; reflexivity. Qed.
+
+Example ex_handles_cow :
+  vabs (vrun [VElem 0 [97]; VCopy 1 0; VChild 0 1; VCopy 2 0; VSubMut 2 0 [99]; VName 1 [98]]) =
+  [Some (N 0 0 [97] [] [N 0 0 [97] [] []]); Some (N 0 0 [98] [] []); Some (N 0 0 [97] [] [N 0 0 [99] [] []])].
+Proof. vm_compute. reflexivity. Qed.
